@@ -1,0 +1,13 @@
+//go:build verif
+
+// Machine-checked contracts for this package (comment-only; compiled only with
+// the build tag `verif`). Read by /verif/engine (govc); see /verif/DESIGN.md.
+package module
+
+//@ func float32ToF16Bits
+//@   mode bv
+//@   tags C06 C18
+//@   ensures [rne] !isnan(f) ==> same(fromhalfbits(result), tohalf(f))
+//@   ensures [nan] isnan(f) ==> isnan(fromhalfbits(result))
+//@   pure
+//@   nopanic
